@@ -17,6 +17,7 @@ package main
 
 import (
 	"bytes"
+	"encoding/json"
 	"fmt"
 	"os"
 	"os/exec"
@@ -25,6 +26,7 @@ import (
 	"sort"
 	"strings"
 	"sync"
+	"time"
 
 	"github.com/benhoyt/goawk/interp"
 	"github.com/benhoyt/goawk/parser"
@@ -276,6 +278,7 @@ func shareCheck(c *vh.Ctx, ep execProg, goroutines, rounds int) {
 	funcs := funcsFor(ep.natives)
 	pr := parseSrc(ep.src, funcs)
 	cs := c19Case{Kind: "share:" + ep.name, Src: ep.src, Natives: ep.natives}
+	markCase(c19Case{Kind: cs.Kind, Src: ep.src, Natives: ep.natives, Input: ep.inputs[0], Note: fmt.Sprint(goroutines, " goroutines x ", rounds, " executions")})
 	if !pr.ok {
 		c.Fail(vh.Failure{Kind: "oracle", What: "sharing corpus program does not parse", Case: cs, Got: pr.msg + pr.panic_})
 		return
@@ -368,7 +371,7 @@ func sharingPart(c *vh.Ctx) {
 }
 
 // raceChild: the sharing part again in a binary built with -race; the parent reads the race reports from its stderr.
-func raceParent(c *vh.Ctx) {
+func raceParent(c *vh.Ctx, freshCases []freshCase) {
 	repo := os.Getenv("VERIF_REPO")
 	if repo == "" {
 		repo = "/repo"
@@ -396,8 +399,10 @@ func raceParent(c *vh.Ctx) {
 		return
 	}
 	outFile := filepath.Join(dir, "child.json")
+	casesFile, progress := writeFreshCases(dir, "cases.json", freshCases), filepath.Join(dir, "progress")
 	child := exec.Command(bin, "--tier", c.Tier, "--seed", fmt.Sprint(c.Seed), "--out", outFile, "--drv", "none")
-	child.Env = append(os.Environ(), "VH_C19_CHILD=1", "GORACE=halt_on_error=0")
+	child.Dir = dir
+	child.Env = append(os.Environ(), "VH_C19_CHILD=1", "GORACE=halt_on_error=0", "VH_C19_CASES="+casesFile, "VH_C19_PROGRESS="+progress)
 	var stderr bytes.Buffer
 	child.Stderr = &stderr
 	child.Stdout = &stderr
@@ -406,12 +411,51 @@ func raceParent(c *vh.Ctx) {
 	c.Hit("race:child-run")
 	c.HitN("race:reports", races)
 	c.OracleCase()
+	_, merged := mergeChild(c, outFile, "race:")
 	if races > 0 {
-		c.Fail(vh.Failure{Kind: "oracle", What: "data race while several interpreters execute one shared Program", Case: c19Case{Kind: "race", Note: firstRace(stderr.String())},
+		// a race in the first-use stream has a concrete input: the case the child was working on when the first report was printed
+		cs := c19Case{Kind: "race", Note: firstRace(stderr.String())}
+		if in, ok := raceCaseOf(stderr.String()); ok {
+			cs.Kind, cs.Src, cs.Natives, cs.Input = "race:"+in.Kind, in.Src, in.Natives, in.Input
+			cs.Note = "executed from several goroutines at once in the -race build (" + in.Note + ")\n" + cs.Note
+		}
+		c.Fail(vh.Failure{Kind: "oracle", What: "data race while several interpreters execute one shared Program", Case: cs,
 			Got: fmt.Sprint(races, " race reports")})
-	} else if err != nil {
-		c.Fail(vh.Failure{Kind: "oracle", What: "race-enabled sharing run failed", Case: c19Case{Kind: "race", Note: lastLines(stderr.String(), 12)}, Got: err.Error()})
+	} else if err != nil || !merged {
+		if b, e := os.ReadFile(progress); e == nil && string(b) != "done" {
+			reportDeadChild(c, "the race-enabled process died while several goroutines made the first use of a freshly parsed Program", freshCases, progress, stderr.String(), err)
+		} else {
+			c.Fail(vh.Failure{Kind: "oracle", What: "race-enabled sharing run failed", Case: c19Case{Kind: "race", Note: crashHead(stderr.String())}, Got: fmt.Sprint(err)})
+		}
 	}
+}
+
+// markCase (child side): a line on stderr saying which program is about to be executed; raceCaseOf (parent side): the program
+// the first race report belongs to = the last such line before it.
+const caseMarker = "C19-CASE "
+
+func markCase(cs c19Case) {
+	if os.Getenv("VH_C19_CHILD") != "" {
+		b, _ := json.Marshal(cs)
+		fmt.Fprintf(os.Stderr, "%s%s\n", caseMarker, b)
+	}
+}
+
+func raceCaseOf(stderr string) (c19Case, bool) {
+	var cs c19Case
+	at := strings.Index(stderr, "WARNING: DATA RACE")
+	if at < 0 {
+		return cs, false
+	}
+	m := strings.LastIndex(stderr[:at], caseMarker)
+	if m < 0 {
+		return cs, false
+	}
+	line := stderr[m+len(caseMarker):]
+	if nl := strings.IndexByte(line, '\n'); nl >= 0 {
+		line = line[:nl]
+	}
+	return cs, json.Unmarshal([]byte(line), &cs) == nil
 }
 
 func firstRace(s string) string {
@@ -435,18 +479,36 @@ func lastLines(s string, n int) string {
 }
 
 func runC19(c *vh.Ctx) {
-	if os.Getenv("VH_C19_CHILD") == "1" {
+	switch os.Getenv("VH_C19_CHILD") {
+	case "1": // the -race child: the first-use cases first (their races are the ones a sequential warm-up would hide), then the sharing part
+		freshChild(c)
 		sharingPart(c)
+		return
+	case "fresh":
+		freshChild(c)
 		return
 	}
 	c.Rule("determinism: a corpus (sources with 2-12 independent type errors in called and uncalled functions, natives mixed with AWK " +
 		"functions, 24 globals + 10 mutually recursive functions, repeated constants, two unused comma expressions) parsed 50x/300x, and " +
 		"the structured programs of C16's generators parsed 8x/30x, and invalid programs with 2-5 independent error sites of 26 kinds (parser, " +
-		"end-of-parse comma-grouping check, resolver) on different lines with random indentation parsed 50x/300x; sharing: 8 corpus programs (arrays, recursion, dynamic regexes, constants, field " +
+		"end-of-parse comma-grouping check, resolver) on different lines with random indentation parsed 50x/300x, and programs whose verdict " +
+		"needs 2-7 resolver passes (2-4 independent groups of 2-13 functions; in each a path of 2-12 call links between parameters, each link " +
+		"caller->callee or callee->caller, array use at one end and scalar use at the other, no global involved, shuffled statements and " +
+		"names; half of them with identically shaped groups) parsed 50x/300x; sharing: 8 corpus programs (arrays, recursion, dynamic regexes, constants, field " +
 		"assignment, natives, getline, range patterns) x inputs x -v settings, accepted generated programs, and 5 programs using system(), " +
 		"command pipes in both directions, output/input files, ENVIRON, srand/rand, printf, dynamic regexes with a distinct identity per " +
-		"execution, each executed from 4-16 goroutines, also under the race detector; non-trivial = a source with at least one function (determinism) / every sharing case")
+		"execution, each executed from 4-16 goroutines, also under the race detector; first use: programs with 50-500 globals (scalars, arrays, " +
+		"functions, natives, late -v globals), every round a NEW parse released to 8-32 goroutines at once (ExecProgram / New+Execute / " +
+		"ExecuteContext / ResetVars, sometimes with concurrent Disassemble/String readers) in a child process, compared with a sequential " +
+		"run of another parse, also under the race detector; non-trivial = a source with at least one function (determinism) / every sharing case")
 
+	t0 := time.Now()
+	var phases []string
+	phase := func(name string) {
+		phases = append(phases, fmt.Sprintf("%s %.1fs", name, time.Since(t0).Seconds()))
+		t0 = time.Now()
+	}
+	defer func() { c.Note("phases: " + strings.Join(phases, ", ")) }()
 	// ---- determinism ----
 	sources := corpusSources(c)
 	nGen := c.N(400, 4000)
@@ -483,6 +545,15 @@ func runC19(c *vh.Ctx) {
 			nats = []string{"notfn"}
 		}
 		sources = append(sources, source{kind: kind, src: src, natives: nats, repeats: c.N(50, 300)})
+	}
+	// programs whose verdict needs several resolver passes (multipass.go)
+	sources = append(sources, source{kind: "multipass-witness", src: multipassWitness, repeats: c.N(50, 300)})
+	nRelay := c.N(300, 2400)
+	relayInfos := map[int]relayInfo{}
+	for i := 0; i < nRelay; i++ {
+		pg, info := genRelay(c.Rng)
+		relayInfos[len(sources)] = info
+		sources = append(sources, source{kind: "multipass", src: pg.src(pg.defaultOrder(), nil), pg: pg, repeats: c.N(50, 300)})
 	}
 	type detOut struct {
 		first    parseResult
@@ -539,6 +610,13 @@ func runC19(c *vh.Ctx) {
 		if strings.HasPrefix(s.kind, "errsites") && o.first.ok {
 			c.Fail(vh.Failure{Kind: "oracle", What: "a program with several error sites was accepted", Case: c19Case{Kind: s.kind, Src: s.src, Natives: s.natives}})
 		}
+		if info, ok := relayInfos[i]; ok {
+			c.Hit(fmt.Sprintf("det:multipass-groups:%d", info.groups))
+			c.Hit(fmt.Sprintf("det:multipass-max-links:%d", info.links))
+			c.Hit(fmt.Sprintf("det:multipass-functions:%s", map[bool]string{true: "2-8", false: "9+"}[info.fns <= 8]))
+			c.Hit(fmt.Sprintf("det:multipass-same-shape:%v", info.same))
+			c.Hit("det:multipass-verdict:" + map[bool]string{true: "accepted", false: "rejected"}[o.first.ok])
+		}
 		c.Hit(fmt.Sprintf("det:distinct-results:%d", o.distinct))
 		if i%499 == 0 {
 			c.Sample(map[string]interface{}{"kind": s.kind, "src": s.src, "verdict": o.fp.verdict, "parses": s.repeats})
@@ -561,6 +639,7 @@ func runC19(c *vh.Ctx) {
 		}
 	}
 
+	phase("repeated-parses")
 	// ---- determinism across histories: each source once, in random orders, after other (also aborted) parses ----
 	{
 		var items []interleaveItem
@@ -573,9 +652,17 @@ func runC19(c *vh.Ctx) {
 		interleavedHistories(c, items)
 	}
 
+	phase("interleaved-histories")
 	// ---- immutability and sharing ----
-	sharingPart(c)
-	raceParent(c)
+	if os.Getenv("VH_C19_ONLY") != "det" { // (debugging aid: VH_C19_ONLY=det runs the determinism streams and the correspondence only)
+		sharingPart(c)
+		phase("sharing")
+		raceCases := freshParent(c)
+		phase("first-use-child")
+		raceParent(c, raceCases)
+		phase("race-child")
+	}
+	defer phase("lean-correspondence")
 
 	// ---- correspondence ----
 	if c.HasLean() {
@@ -591,6 +678,21 @@ func runC19(c *vh.Ctx) {
 			for _, it := range []string{"id", "rev", "rot"} {
 				reqs = append(reqs, "parse "+it+" "+body)
 				idx = append(idx, i)
+			}
+		}
+		// in which pass the model reaches the verdict of a multipass program (the parse correspondence below ties that model to the code)
+		{
+			var preqs []string
+			var pidx []int
+			for i, s := range sources {
+				if _, ok := relayInfos[i]; ok && outs[i].first.panic_ == "" {
+					preqs = append(preqs, "passes id "+s.pg.leanProgram(s.pg.flatten(), ranks(s.pg.identifiers())))
+					pidx = append(pidx, i)
+				}
+			}
+			for k, a := range c.LeanBatch(preqs) {
+				v := map[bool]string{true: "accepted", false: "rejected"}[outs[pidx[k]].first.ok]
+				c.Hit("det:multipass-" + v + "-in-pass:" + strings.TrimPrefix(a, "passes "))
 			}
 		}
 		ans := c.LeanBatch(reqs)
